@@ -347,6 +347,14 @@ func (s *relaygenSys) Check(e Edge, obs []Obs) []Mismatch {
 		wantOK, _ := m["ok"].(bool)
 		gotOK, _ := o["ok"].(bool)
 		desc := fmt.Sprintf("%s generator, %v %v (range %d-%d, open %v)", s.kind, e.A["a"], canon(e.A), s.min, s.max, keysOf(s.open))
+		if sh, _ := o["shared"].(bool); sh && wantOK && toInt(m["port"]) > 0 && toInt(o["port"]) != toInt(m["port"]) {
+			// not the listed finding (a busy port that was asked for): the generator bound ANOTHER port than the free one
+			// this step asks for, and that one is in use already
+			_ = s.realign(e, m)
+			ms = append(ms, Mismatch{"relaygen", desc + fmt.Sprintf(": spec port %v (free), generator bound port %v, which was already in use", m["port"], o["port"])})
+
+			continue
+		}
 		if sh, _ := o["shared"].(bool); sh {
 			ms = append(ms, Mismatch{"relaygen.shared", desc + fmt.Sprintf(": handed out port %v although it was already in use", o["port"])})
 			// re-align the real world with the spec's target state so that the path can go on:
@@ -385,6 +393,17 @@ func (s *relaygenSys) Check(e Edge, obs []Obs) []Mismatch {
 	}
 
 	return ms
+}
+
+// realign binds what the specification says this step binds, so that a path can go on after a divergence.
+func (s *relaygenSys) realign(e Edge, m map[string]any) error {
+	proto, _ := e.A["proto"].(string)
+	sock, err := s.plainBind(proto, toInt(m["port"]))
+	if err == nil {
+		s.open[fmt.Sprintf("%s/%d", proto, toInt(m["port"]))] = sock
+	}
+
+	return err
 }
 
 func keysOf(m map[string]io.Closer) []string {
